@@ -579,6 +579,13 @@ impl NetcodeServer {
         let max_clients = max_clients.min(NETCODE_MAX_CLIENTS);
         log::debug!("Netcode max_clients set to {}", max_clients);
 
+        // Raising the limit needs slots for the additional clients
+        if max_clients > self.clients.len() {
+            let mut clients = std::mem::take(&mut self.clients).into_vec();
+            clients.resize(max_clients, None);
+            self.clients = clients.into_boxed_slice();
+        }
+
         self.max_clients = max_clients;
     }
 
